@@ -34,6 +34,13 @@ def gen(ctx):
             yield "recv 3 eof %s" % hexlist([body + tail + b"230 ok\r\n"])
             yield "recv 3 eof %s" % hexlist([body[:5000], body[5000:] + tail])
             yield "recv 3 eof %s" % hexlist([b"220-x\r\n" + body + tail + b"220 end\r\n"])
+    # over-long lines whose first bytes look like format directives (they end up in error messages)
+    for pre in (b"220 100% of quota", b"200 %s%s%n", b"211-load: 7%x", b"%", b"220 %1% %2% %3%", b"220 %|1$s| %d {} {0}"):
+        for n in (8193, 9000):
+            yield "recv 3 eof %s" % hexlist([pre + b"a" * (n - len(pre))])
+            yield "recv 3 eof %s" % hexlist([b"211-x\r\n" + pre + b"a" * (n - len(pre)) + b"\r\n211 end\r\n"])
+        yield "recv 3 eof %s" % hexlist([pre + b"\r\n"])
+        yield "recv 3 eof %s" % hexlist([pre])
     n = 5000 if tier == "quick" else 200000
     for i in range(n):
         r = i % 3
